@@ -177,6 +177,7 @@ pub fn op(p: &Profile, depth: u32, in_cb: bool, d: &mut Dec) -> Op {
         p.o_async,
         p.o_badfd,
         if p.k_exec > 0 { p.o_exec } else { 0 },
+        p.o_wakeup,
         if !in_cb { p.o_dispatch } else { 0 },
     ];
     if ws.iter().all(|w| *w == 0) {
@@ -280,6 +281,7 @@ pub fn op(p: &Profile, depth: u32, in_cb: bool, d: &mut Dec) -> Op {
             1 => Op::Wake { task: d.u16() },
             _ => Op::DropScheduler { src: d.u16() },
         },
+        10 => Op::Wakeup,
         _ => {
             let max = p.max_timeout_ms;
             Op::Dispatch { timeout_ms: if max == 0 || d.pickw(&[4, 1]) == 0 { 0 } else { d.u8r(1, max) } }
